@@ -535,7 +535,7 @@ Proof.
   { exists c, (length u). split; [reflexivity|]. split; [lia|]. intros Hst; rewrite ?Hst.
     split; [apply measure_all; [exact Hz | exact Hu | rewrite ?Hst; cbn; lia]|].
     split; [intros Hw' _; exact Hw' | congruence]. }
-  destruct (mem_bytes (c_elem c) T_specialElements); [|exact Hall].
+  destruct (special_applies c); [|exact Hall].
   destruct (index_tag_end u (c_elem c)) as [k|] eqn:Ek; [|exact Hall].
   apply index_tag_end_spec in Ek as [Hk _].
   exists ctx0, k. split; [reflexivity|]. split; [lia|]. intros Hst; rewrite ?Hst.
@@ -595,7 +595,7 @@ Proof.
   - eapply tr_good_total. apply t_after_name_good; [apply tail_ok_nil | exact Hne].
   - eapply tr_good_total. apply t_before_value_good; [apply tail_ok_nil | exact Hne].
   - eapply tr_good_total. apply t_html_cmt_good; [apply tail_ok_nil | exact Hne].
-  - exists c, O. unfold t_special_tag_end. destruct (mem_bytes (c_elem c) T_specialElements); split; try reflexivity; simpl; lia.
+  - exists c, O. unfold t_special_tag_end. destruct (special_applies c); split; try reflexivity; simpl; lia.
   - eapply tr_good_total. apply t_special_good; [apply tail_ok_nil | exact Hne].
   - eapply tr_good_total. apply t_attr_good; [apply tail_ok_nil | exact Hne].
   - eapply tr_good_total. apply t_error_good; [apply tail_ok_nil | exact Hne].
@@ -956,8 +956,9 @@ Theorem cat_step c (s : bytes) : wf_ctx c -> s <> [] -> step_ok c s (context_aft
 Proof.
   intros Hw Hs. destruct (c_delim c) eqn:Ed.
   - rewrite cat_none_eq by exact Ed. unfold t_special_tag_end.
-    destruct (mem_bytes (c_elem c) T_specialElements) eqn:Esp; [|apply cat_none_whole; assumption].
+    destruct (special_applies c) eqn:Esp; [|apply cat_none_whole; assumption].
     destruct (index_tag_end s (c_elem c)) as [k|] eqn:Ek; [|apply cat_none_whole; assumption].
+    unfold special_applies in Esp. apply andb_true_iff in Esp as [Esp _].
     apply cat_none_end; assumption.
   - rewrite cat_delim_eq by congruence. apply cat_delim_step; [exact Hw | congruence | exact Hs].
   - rewrite cat_delim_eq by congruence. apply cat_delim_step; [exact Hw | congruence | exact Hs].
@@ -983,7 +984,7 @@ Proof.
   - (* the empty text: every transition returns c or a fixed context *)
     destruct (c_delim c) eqn:Ed.
     + rewrite cat_none_eq in E by exact Ed. unfold t_special_tag_end, cat_none in E.
-      destruct (mem_bytes (c_elem c) T_specialElements); cbn in E; inversion E; subst; exact Hw.
+      destruct (special_applies c); cbn in E; inversion E; subst; exact Hw.
     + rewrite cat_delim_eq in E by congruence. rewrite Ed in E. cbn in E. inversion E; subst.
       apply wf_set_attr_value. exact Hw.
     + rewrite cat_delim_eq in E by congruence. rewrite Ed in E. cbn in E. inversion E; subst.
